@@ -65,30 +65,37 @@ theorem single_via_count {c : Config α} {g : List α}
     {fs rs pops : List Nat} {r : AlgResult α}
     (h : singleVia c g sim term source target k fs rs pops = .ok r) :
     r.routes.length ≤ k ∧ (1 ≤ k → 1 ≤ r.routes.length) := by
-  obtain ⟨fres, rres, tsp, sol, it, _, _, _, hloop, rfl⟩ := singleVia_ok h
-  have hlen := svLoop_length_le _ _ _ _ _ hloop
-  simp only [List.length_singleton] at hlen
-  simp only [List.length_take]
-  omega
+  obtain ⟨fres, tsp, _, _, ⟨_, rfl⟩ | ⟨rres, sol, it, _, hloop, rfl⟩⟩ := singleVia_ok h
+  · simp only [List.length_take, List.length_singleton]
+    omega
+  · have hlen := svLoop_length_le _ _ _ _ _ hloop
+    simp only [List.length_singleton] at hlen
+    simp only [List.length_take]
+    omega
 
-/-- **the algorithm ends**: the loop is structurally recursive on the replayed pops, and every turn
-removes one entry of the intersection queue — `iterations` is the two underlying searches' count
-plus at most one turn per intersection entry, of which there are at most `nV` -/
+/-- **the algorithm ends**: when the reverse search fails there is no loop at all (`iterations` is
+the forward search's count); otherwise the loop is structurally recursive on the replayed pops, and
+every turn — a dropped candidate included — removes one entry of the intersection queue:
+`iterations` is the two searches' count plus at most one turn per intersection entry, of which
+there are at most `nV` -/
 theorem single_via_terminates {c : Config α} {g : List α}
     {sim : List Nat → List Nat → Except ErrKind Bool} {term : KspTerm} {source target k : Nat}
     {fs rs pops : List Nat} {r : AlgResult α}
     (h : singleVia c g sim term source target k fs rs pops = .ok r) :
-    ∃ fres rres turns,
-      runVertexOriented c.fwd.inst source (some target) fs = .ok fres ∧
-      runVertexOriented (c.rev g).inst target (some source) rs = .ok rres ∧
-      r.iterations = fres.final.iters + rres.final.iters + turns ∧
-      turns ≤ (interQueue c.nV fres.final.sol rres.final.sol).length ∧
-      (interQueue c.nV fres.final.sol rres.final.sol).length ≤ c.nV := by
-  obtain ⟨fres, rres, tsp, sol, it, h1, h2, _, hloop, rfl⟩ := singleVia_ok h
-  have := (svLoop_turns _ _ _ _ _ hloop).2
-  refine ⟨fres, rres, it, h1, h2, rfl, by simpa using this, ?_⟩
-  unfold interQueue
-  exact (List.length_filterMap_le _ _).trans (by simp)
+    ∃ fres, runVertexOriented c.fwd.inst source (some target) fs = .ok fres ∧
+      (((∃ e, runVertexOriented (c.rev g).inst target (some source) rs = .error e) ∧
+          r.iterations = fres.final.iters) ∨
+       ∃ rres turns,
+        runVertexOriented (c.rev g).inst target (some source) rs = .ok rres ∧
+        r.iterations = fres.final.iters + rres.final.iters + turns ∧
+        turns ≤ (interQueue c.nV fres.final.sol rres.final.sol).length ∧
+        (interQueue c.nV fres.final.sol rres.final.sol).length ≤ c.nV) := by
+  obtain ⟨fres, tsp, h1, _, ⟨he, rfl⟩ | ⟨rres, sol, it, h2, hloop, rfl⟩⟩ := singleVia_ok h
+  · exact ⟨fres, h1, Or.inl ⟨he, rfl⟩⟩
+  · have := (svLoop_turns _ _ _ _ _ hloop).2
+    refine ⟨fres, h1, Or.inr ⟨rres, it, h2, rfl, by simpa using this, ?_⟩⟩
+    unfold interQueue
+    exact (List.length_filterMap_le _ _).trans (by simp)
 
 /-- **best first**: the first returned route is the route of the underlying forward search -/
 theorem single_via_first_is_underlying_route {c : Config α} {g : List α}
@@ -97,18 +104,23 @@ theorem single_via_first_is_underlying_route {c : Config α} {g : List α}
     (h : singleVia c g sim term source target k fs rs pops = .ok r) :
     ∃ fres, runVertexOriented c.fwd.inst source (some target) fs = .ok fres ∧
       r.routes.head? = fres.route := by
-  obtain ⟨fres, rres, tsp, sol, it, h1, _, htsp, hloop, rfl⟩ := singleVia_ok h
-  refine ⟨fres, h1, ?_⟩
-  rw [tsp_eq_route h1 htsp]
-  have := svLoop_head tsp _ _ _ _ _ rfl hloop
-  cases sol with
-  | nil => simp at this
-  | cons a rest =>
-    simp only [List.head?_cons, Option.some.injEq] at this
-    subst this
+  obtain ⟨fres, tsp, h1, htsp, ⟨_, rfl⟩ | ⟨rres, sol, it, _, hloop, rfl⟩⟩ := singleVia_ok h
+  · refine ⟨fres, h1, ?_⟩
+    rw [tsp_eq_route h1 htsp]
     cases k with
     | zero => omega
     | succ k => simp
+  · refine ⟨fres, h1, ?_⟩
+    rw [tsp_eq_route h1 htsp]
+    have := svLoop_head tsp _ _ _ _ _ rfl hloop
+    cases sol with
+    | nil => simp at this
+    | cons a rest =>
+      simp only [List.head?_cons, Option.some.injEq] at this
+      subst this
+      cases k with
+      | zero => omega
+      | succ k => simp
 
 /-- hence **the first route is a least-cost route** wherever the underlying search is optimal (C02):
 in the setting `SearchOpt.Uniform` (edge-local validity, state-independent positive edge costs) with
@@ -156,27 +168,99 @@ theorem single_via_routes_valid {c : Config α} {g : List α} (hf : c.fwd.AdjCon
       GWalk c.edges source (route.map (·.edge)) target ∧
       (∃ vs, srcVertices c.fwd route = .ok vs ∧ vs.Nodup) ∧
       (route.map (·.edge)).Nodup := by
-  obtain ⟨fres, rres, tsp, sol, it, h1, h2, htsp, hloop, rfl⟩ := singleVia_ok h
-  have T := trees_of_runs c g hf hr hts h1 h2
-  have hall : ∀ route ∈ sol, GWalk c.edges source (route.map (·.edge)) target ∧
-      routeContainsLoop c.fwd route = .ok false := by
-    refine svLoop_invariant (fun s => ∀ route ∈ s, GWalk c.edges source (route.map (·.edge)) target ∧
-      routeContainsLoop c.fwd route = .ok false) ?_ _ _ _ _ _ ?_ hloop
-    · intro s v this hs hcand hl _ route hroute
-      rcases List.mem_append.1 hroute with hm | hm
-      · exact hs route hm
-      · simp only [List.mem_singleton] at hm
-        subst hm
-        exact ⟨(svCandidate_walk T hcand).1, hl⟩
+  obtain ⟨fres, tsp, h1, htsp, hcase⟩ := singleVia_ok h
+  obtain ⟨hinvF, hedgesF⟩ := fwd_tree_of_run c hf hts h1
+  obtain ⟨hwT, hlT, _⟩ := fwd_backtrack_walk' hinvF hedgesF htsp
+  have hgood : ∀ route, GWalk c.edges source (route.map (·.edge)) target →
+      routeContainsLoop c.fwd route = .ok false →
+      GWalk c.edges source (route.map (·.edge)) target ∧
+      (∃ vs, srcVertices c.fwd route = .ok vs ∧ vs.Nodup) ∧ (route.map (·.edge)).Nodup := by
+    intro route hw hl
+    obtain ⟨vs, hvs, hnd, hed⟩ := routeContainsLoop_false hl
+    exact ⟨hw, ⟨vs, hvs, hnd⟩, hed⟩
+  rcases hcase with ⟨_, rfl⟩ | ⟨rres, sol, it, h2, hloop, rfl⟩
+  · intro route hroute
+    have := List.mem_of_mem_take hroute
+    simp only [List.mem_singleton] at this
+    subst this
+    exact hgood _ hwT hlT
+  · have T := trees_of_runs c g hf hr hts h1 h2
+    have hall : ∀ route ∈ sol, GWalk c.edges source (route.map (·.edge)) target ∧
+        routeContainsLoop c.fwd route = .ok false := by
+      refine svLoop_invariant (fun s => ∀ route ∈ s,
+        GWalk c.edges source (route.map (·.edge)) target ∧
+        routeContainsLoop c.fwd route = .ok false) ?_ _ _ _ _ _ ?_ hloop
+      · intro s v this hs hcand hl _ _ route hroute
+        rcases List.mem_append.1 hroute with hm | hm
+        · exact hs route hm
+        · simp only [List.mem_singleton] at hm
+          subst hm
+          exact ⟨(svCandidate_walk T hcand).1, hl⟩
+      · intro route hroute
+        simp only [List.mem_singleton] at hroute
+        subst hroute
+        exact ⟨hwT, hlT⟩
+    intro route hroute
+    obtain ⟨hw, hl⟩ := hall route (List.mem_of_mem_take hroute)
+    exact hgood _ hw hl
+
+/-- what an alternative route is: the forward backtrack to a via vertex `v` followed by a forward
+re-accumulation, permitted by the frontier model in travel order -/
+def IsAlternative (c : Config α) (source target : Nat) (fwdSol : Nat → Option (Branch α))
+    (fwdSize : Nat) (route : List (Branch α)) : Prop :=
+  ∃ v fwdRoute revRoute,
+    route = fwdRoute ++ revRoute ∧
+    backtrack source v fwdSol (fwdSize + 1) = .ok fwdRoute ∧
+    GWalk c.edges source (fwdRoute.map (·.edge)) v ∧
+    GWalk c.edges v (revRoute.map (·.edge)) target ∧
+    (∀ b ∈ fwdRoute, ∃ u, fwdSol u = some b) ∧
+    Reaccumulated c.fwd (lastEdge fwdRoute) (lastState c.fwd fwdRoute) revRoute ∧
+    PermittedFrom c.fwd (initialState c.fwd.feats) none route
+
+/-- every route after the first is an `IsAlternative` of the forward tree -/
+theorem single_via_alternatives {c : Config α} {g : List α} (hf : c.fwd.AdjConsistent)
+    (hr : (c.rev g).AdjConsistent) {sim : List Nat → List Nat → Except ErrKind Bool}
+    {term : KspTerm} {source target k : Nat} (hts : target ≠ source) {fs rs pops : List Nat}
+    {r : AlgResult α} (h : singleVia c g sim term source target k fs rs pops = .ok r) :
+    ∃ fres, runVertexOriented c.fwd.inst source (some target) fs = .ok fres ∧
+    ∀ route ∈ r.routes.tail,
+      IsAlternative c source target fres.final.sol fres.final.solSize route := by
+  obtain ⟨fres, tsp, h1, htsp, ⟨_, rfl⟩ | ⟨rres, sol, it, h2, hloop, rfl⟩⟩ := singleVia_ok h
+  · refine ⟨fres, h1, ?_⟩
+    intro route hroute
+    cases k with
+    | zero => simp at hroute
+    | succ k => simp at hroute
+  · have T := trees_of_runs c g hf hr hts h1 h2
+    refine ⟨fres, h1, ?_⟩
+    have hall := svLoop_invariant (fun s => s ≠ [] ∧ ∀ route ∈ s.tail,
+        IsAlternative c source target fres.final.sol fres.final.solSize route)
+        ?_ _ _ _ _ _ ?_ hloop
     · intro route hroute
-      simp only [List.mem_singleton] at hroute
-      subst hroute
-      obtain ⟨hw, hl, _⟩ := fwd_backtrack_walk T htsp
-      exact ⟨hw, hl⟩
-  intro route hroute
-  obtain ⟨hw, hl⟩ := hall route (List.mem_of_mem_take hroute)
-  obtain ⟨vs, hvs, hnd, hed⟩ := routeContainsLoop_false hl
-  exact ⟨hw, ⟨vs, hvs, hnd⟩, hed⟩
+      apply hall.2 route
+      cases k with
+      | zero => simp at hroute
+      | succ k =>
+        cases sol with
+        | nil => simp at hroute
+        | cons a rest =>
+          simp only [List.take_succ_cons, List.tail_cons] at hroute ⊢
+          exact List.mem_of_mem_take hroute
+    · intro s v this hs hcand _ hperm _
+      refine ⟨by simp, ?_⟩
+      intro route hroute
+      cases s with
+      | nil => exact absurd rfl hs.1
+      | cons a rest =>
+        simp only [List.cons_append, List.tail_cons] at hroute
+        rcases List.mem_append.1 hroute with hm | hm
+        · exact hs.2 route (by simpa using hm)
+        · simp only [List.mem_singleton] at hm
+          subst hm
+          obtain ⟨_, fr, rr, e1, e2, e3, e4, e5, e6⟩ := svCandidate_walk T hcand
+          exact ⟨v, fr, rr, e1, e2, e3, e4, e5, e6,
+            (routePermitted_iff c.fwd _ _ _).1 hperm⟩
+    · exact ⟨by simp, by simp⟩
 
 /-- **correctly accumulated state of an alternative**: every route after the first is
 `fwdRoute ++ revRoute` for some intersection vertex `v`, where `fwdRoute` is the backtrack of the
@@ -195,40 +279,54 @@ theorem single_via_alternative_state {c : Config α} {g : List α} (hf : c.fwd.A
       GWalk c.edges v (revRoute.map (·.edge)) target ∧
       (∀ b ∈ fwdRoute, ∃ u, fres.final.sol u = some b) ∧
       Reaccumulated c.fwd (lastEdge fwdRoute) (lastState c.fwd fwdRoute) revRoute := by
-  obtain ⟨fres, rres, tsp, sol, it, h1, h2, htsp, hloop, rfl⟩ := singleVia_ok h
-  have T := trees_of_runs c g hf hr hts h1 h2
+  obtain ⟨fres, h1, hall⟩ := single_via_alternatives hf hr hts h
   refine ⟨fres, h1, ?_⟩
-  have hall := svLoop_invariant (fun s => s ≠ [] ∧ ∀ route ∈ s.tail, ∃ v fwdRoute revRoute,
-      route = fwdRoute ++ revRoute ∧
-      backtrack source v fres.final.sol (fres.final.solSize + 1) = .ok fwdRoute ∧
-      GWalk c.edges source (fwdRoute.map (·.edge)) v ∧
-      GWalk c.edges v (revRoute.map (·.edge)) target ∧
-      (∀ b ∈ fwdRoute, ∃ u, fres.final.sol u = some b) ∧
-      Reaccumulated c.fwd (lastEdge fwdRoute) (lastState c.fwd fwdRoute) revRoute) ?_ _ _ _ _ _ ?_ hloop
-  · intro route hroute
-    apply hall.2 route
-    cases k with
-    | zero => simp at hroute
-    | succ k =>
-      cases sol with
-      | nil => simp at hroute
-      | cons a rest =>
-        simp only [List.take_succ_cons, List.tail_cons] at hroute ⊢
-        exact List.mem_of_mem_take hroute
-  · intro s v this hs hcand _ _
-    refine ⟨by simp, ?_⟩
-    intro route hroute
-    cases s with
-    | nil => exact absurd rfl hs.1
-    | cons a rest =>
-      simp only [List.cons_append, List.tail_cons] at hroute
-      rcases List.mem_append.1 hroute with hm | hm
-      · exact hs.2 route (by simpa using hm)
-      · simp only [List.mem_singleton] at hm
-        subst hm
-        obtain ⟨_, fr, rr, e1, e2, e3, e4, e5, e6⟩ := svCandidate_walk T hcand
-        exact ⟨v, fr, rr, e1, e2, e3, e4, e5, e6⟩
-  · exact ⟨by simp, by simp⟩
+  intro route hroute
+  obtain ⟨v, fr, rr, e1, e2, e3, e4, e5, e6, _⟩ := hall route hroute
+  exact ⟨v, fr, rr, e1, e2, e3, e4, e5, e6⟩
+
+/-- **every returned alternative is permitted by the frontier model, pairwise, in travel order**
+(the repair of `ksp/single-via-restricted-turn`): the first edge is accepted from the initial state
+with no previous edge, every later edge from the state and edge the route reports for its
+predecessor — the junction of the two halves and the re-traversed reverse half included; in
+particular no alternative takes a turn listed by a turn-restriction model of the configuration -/
+theorem single_via_routes_permitted {c : Config α} {g : List α} (hf : c.fwd.AdjConsistent)
+    (hr : (c.rev g).AdjConsistent) {sim : List Nat → List Nat → Except ErrKind Bool}
+    {term : KspTerm} {source target k : Nat} (hts : target ≠ source) {fs rs pops : List Nat}
+    {r : AlgResult α} (h : singleVia c g sim term source target k fs rs pops = .ok r) :
+    ∀ route ∈ r.routes.tail,
+      (∀ b, route.head? = some b →
+        c.fwd.inst.valid b.edge (initialState c.fwd.feats) none = .ok true) ∧
+      (∀ i (hi : i + 1 < route.length),
+        c.fwd.inst.valid route[i + 1].edge route[i].state (some route[i].edge) = .ok true) ∧
+      ∀ pairs, FrontierM.turnRestriction pairs ∈ c.frontier →
+        ∀ i (hi : i + 1 < route.length), (route[i].edge, route[i + 1].edge) ∉ pairs := by
+  obtain ⟨fres, _, hall⟩ := single_via_alternatives hf hr hts h
+  intro route hroute
+  obtain ⟨_, _, _, _, _, _, _, _, _, hperm⟩ := hall route hroute
+  obtain ⟨g1, g2⟩ := PermittedFrom.getElem hperm
+  exact ⟨g1, g2, fun pairs hm => PermittedFrom.no_restricted_turn (cf := c.fwd) hm hperm⟩
+
+/-- the same for **the first route under the Dijkstra discipline** (weight factor 0): by
+`SearchDiscipline.route_links_fresh` every link of the underlying search's route was validated from
+the state and edge the route itself reports for the previous link -/
+theorem single_via_first_route_permitted {c : Config α} {g : List α} (hf : c.fwd.AdjConsistent)
+    (hwf : c.wf = some 0) {sim : List Nat → List Nat → Except ErrKind Bool}
+    {term : KspTerm} {source target k : Nat} (hk : 1 ≤ k) (hts : target ≠ source)
+    {fs rs pops : List Nat} {r : AlgResult α}
+    (h : singleVia c g sim term source target k fs rs pops = .ok r) :
+    ∃ first, r.routes.head? = some first ∧
+      PermittedFrom c.fwd (initialState c.fwd.feats) none first ∧
+      ∀ pairs, FrontierM.turnRestriction pairs ∈ c.frontier →
+        ∀ i (hi : i + 1 < first.length), (first[i].edge, first[i + 1].edge) ∉ pairs := by
+  obtain ⟨fres, h1, h2⟩ := single_via_first_is_underlying_route hk h
+  have hz : SearchDiscipline.ZeroH c.fwd.inst := SearchDiscipline.config_zeroH c.fwd hwf
+  obtain ⟨route, hroute, _, _, _, hhead, hlinks⟩ :=
+    SearchDiscipline.route_links_fresh (c.fwd.inst_wf hf) hz hts h1
+  have hperm : PermittedFrom c.fwd (initialState c.fwd.feats) none route :=
+    permittedFrom_of_links (fun b hb => (hhead b hb).1) (fun i hi => (hlinks i hi).1)
+  exact ⟨route, by rw [h2, hroute], hperm,
+    fun pairs hm => PermittedFrom.no_restricted_turn (cf := c.fwd) hm hperm⟩
 
 /-! ## single-via: distinct and dissimilar -/
 
@@ -242,29 +340,30 @@ theorem single_via_distinct_dissimilar {c : Config α} {g : List α}
     r.routes.Pairwise (fun earlier later =>
       later.map (·.edge) ≠ earlier.map (·.edge) ∧
       sim (later.map (·.edge)) (earlier.map (·.edge)) = .ok false) := by
-  obtain ⟨fres, rres, tsp, sol, it, _, _, _, hloop, rfl⟩ := singleVia_ok h
-  have hall := svLoop_invariant (fun s => s.Pairwise (fun earlier later =>
-      later.map (·.edge) ≠ earlier.map (·.edge) ∧
-      sim (later.map (·.edge)) (earlier.map (·.edge)) = .ok false)) ?_ _ _ _ _ _ ?_ hloop
-  · exact hall.sublist (List.take_sublist _ _)
-  · intro s v this hs _ _ hrej
-    rw [List.pairwise_append]
-    refine ⟨hs, List.pairwise_singleton _ _, ?_⟩
-    intro a ha b hb
-    simp only [List.mem_singleton] at hb
-    subst hb
-    obtain ⟨h1, h2⟩ := (rejectedBy_false_iff sim b s).1 hrej a ha
-    refine ⟨?_, h1⟩
-    intro heq
-    rw [(sameIds_iff b a).2 heq] at h2
-    cases h2
-  · exact List.pairwise_singleton _ _
+  obtain ⟨fres, tsp, _, _, ⟨_, rfl⟩ | ⟨rres, sol, it, _, hloop, rfl⟩⟩ := singleVia_ok h
+  · exact (List.pairwise_singleton _ tsp).sublist (List.take_sublist _ _)
+  · have hall := svLoop_invariant (fun s => s.Pairwise (fun earlier later =>
+        later.map (·.edge) ≠ earlier.map (·.edge) ∧
+        sim (later.map (·.edge)) (earlier.map (·.edge)) = .ok false)) ?_ _ _ _ _ _ ?_ hloop
+    · exact hall.sublist (List.take_sublist _ _)
+    · intro s v this hs _ _ _ hrej
+      rw [List.pairwise_append]
+      refine ⟨hs, List.pairwise_singleton _ _, ?_⟩
+      intro a ha b hb
+      simp only [List.mem_singleton] at hb
+      subst hb
+      obtain ⟨h1, h2⟩ := (rejectedBy_false_iff sim b s).1 hrej a ha
+      refine ⟨?_, h1⟩
+      intro heq
+      rw [(sameIds_iff b a).2 heq] at h2
+      cases h2
+    · exact List.pairwise_singleton _ _
 
 /-! ## `AcceptAll` -/
 
 /-- **`AcceptAll` rejects no alternative for similarity** (the repaired `is_similar`): its test is
-`false` for every pair of routes, on every network — the only rejections left are the loop test and
-an identical edge sequence -/
+`false` for every pair of routes, on every network — the only rejections left are the loop test, the
+frontier validation and an identical edge sequence -/
 theorem accept_all_rejects_none [HasSqrt α] (edges : List (EdgeRec α)) (a b : List Nat) :
     (SimFn.acceptAll : SimFn α).test edges a b = .ok false ∧
     (SimFn.acceptAll : SimFn α).test edges = simAcceptAll := by
@@ -287,49 +386,82 @@ theorem accept_all_at_least_as_many {c : Config α} {g : List α}
     (hA : singleVia c g simAcceptAll term source target k fs rs pops = .ok rA)
     (hT : singleVia c g sim term source target k fs rs pops = .ok rT) :
     rT.routes.length ≤ rA.routes.length := by
-  obtain ⟨fres, rres, tsp, solA, itA, h1, h2, htsp, hloopA, rfl⟩ := singleVia_ok hA
-  obtain ⟨fres', rres', tsp', solT, itT, h1', h2', htsp', hloopT, rfl⟩ := singleVia_ok hT
+  obtain ⟨fres, tsp, h1, htsp, hcA⟩ := singleVia_ok hA
+  obtain ⟨fres', tsp', h1', htsp', hcT⟩ := singleVia_ok hT
   rw [h1] at h1'; cases h1'
-  rw [h2] at h2'; cases h2'
   rw [htsp] at htsp'; cases htsp'
-  exact svLoop_acceptAll_ge _ _ _ _ _ _ _ _ (covered_init sim tsp) (le_refl _) hloopA hloopT
+  rcases hcA with ⟨⟨e, he⟩, rfl⟩ | ⟨rres, solA, itA, h2, hloopA, rfl⟩
+  · rcases hcT with ⟨_, rfl⟩ | ⟨rres', _, _, h2', _, _⟩
+    · exact le_refl _
+    · rw [he] at h2'; cases h2'
+  · rcases hcT with ⟨⟨e, he⟩, _⟩ | ⟨rres', solT, itT, h2', hloopT, rfl⟩
+    · rw [he] at h2; cases h2
+    · rw [h2] at h2'; cases h2'
+      exact svLoop_acceptAll_ge _ _ _ _ _ _ _ _ (covered_init sim tsp) (le_refl _) hloopA hloopT
 
 /-- **the same, whatever the two pop orders**: the order in which equal-priority intersection
 vertices are popped is not defined (it depends on `HashMap` iteration and on the third-party queue),
 so two real runs of the same query may replay different pop sequences; `AcceptAll` still returns at
 least as many routes — when it does not stop at `k` routes it has drained the queue and holds, up to
-edge ids, every loop-free candidate there is, while the other run's routes are pairwise distinct
-candidates of the same queue -/
+edge ids, every loop-free permitted candidate there is, while the other run's routes are pairwise
+distinct candidates of the same queue -/
 theorem accept_all_at_least_as_many_any_order {c : Config α} {g : List α}
     {sim : List Nat → List Nat → Except ErrKind Bool} {term : KspTerm} {source target k : Nat}
     {fs rs popsA popsT : List Nat} {rA rT : AlgResult α}
     (hA : singleVia c g simAcceptAll term source target k fs rs popsA = .ok rA)
     (hT : singleVia c g sim term source target k fs rs popsT = .ok rT) :
     rT.routes.length ≤ rA.routes.length := by
-  obtain ⟨fres, rres, tsp, solA, itA, h1, h2, htsp, hloopA, rfl⟩ := singleVia_ok hA
-  obtain ⟨fres', rres', tsp', solT, itT, h1', h2', htsp', hloopT, rfl⟩ := singleVia_ok hT
+  obtain ⟨fres, tsp, h1, htsp, hcA⟩ := singleVia_ok hA
+  obtain ⟨fres', tsp', h1', htsp', hcT⟩ := singleVia_ok hT
   rw [h1] at h1'; cases h1'
-  rw [h2] at h2'; cases h2'
   rw [htsp] at htsp'; cases htsp'
-  exact svLoop_acceptAll_ge_any_order hloopA hloopT
+  rcases hcA with ⟨⟨e, he⟩, rfl⟩ | ⟨rres, solA, itA, h2, hloopA, rfl⟩
+  · rcases hcT with ⟨_, rfl⟩ | ⟨rres', _, _, h2', _, _⟩
+    · exact le_refl _
+    · rw [he] at h2'; cases h2'
+  · rcases hcT with ⟨⟨e, he⟩, _⟩ | ⟨rres', solT, itT, h2', hloopT, rfl⟩
+    · rw [he] at h2; cases h2
+    · rw [h2] at h2'; cases h2'
+      exact svLoop_acceptAll_ge_any_order hloopA hloopT
 
 /-! ## which failures propagate -/
 
-/-- single-via runs exactly two searches; with consistent adjacency and distinct origin and
-destination it fails only with: the forward search's error (the query is not answerable by the
-underlying search either), **the reverse search's error**, an error of a forward re-traversal in
-`reorient_reverse_route`, or an error of the similarity function (or the replay is not one the queue
-could have produced).  Backtracking, the tree-count checks and the loop test never fail. -/
+/-- (after the repairs `ksp/single-via-reverse-search-failed` and
+`ksp/single-via-alternative-failed`) with consistent adjacency and distinct origin and destination
+single-via fails only with **the forward search's error** — the query is then not answerable by the
+underlying search either — or with an error of the similarity function (or the replay is not one
+the queue could have produced).  A failed reverse search yields the shortest route alone, a failed
+re-traversal drops that candidate; backtracking, the tree-count checks, the loop test and the
+frontier validation never fail. -/
 theorem single_via_failures {c : Config α} {g : List α} (hf : c.fwd.AdjConsistent)
     (hr : (c.rev g).AdjConsistent) {sim : List Nat → List Nat → Except ErrKind Bool}
     {term : KspTerm} {source target k : Nat} (hts : target ≠ source) {fs rs pops : List Nat}
     {e : ErrKind} (h : singleVia c g sim term source target k fs rs pops = .error e) :
     runVertexOriented c.fwd.inst source (some target) fs = .error e ∨
-    ((∃ fres, runVertexOriented c.fwd.inst source (some target) fs = .ok fres) ∧
-      runVertexOriented (c.rev g).inst target (some source) rs = .error e) ∨
-    e = .scheduleExhausted ∨ e = .badSchedule ∨
-    (∃ e' prev st, edgeTraversal c.fwd e' prev st = .error e) ∨ (∃ a b, sim a b = .error e) :=
+    e = .scheduleExhausted ∨ e = .badSchedule ∨ (∃ a b, sim a b = .error e) :=
   singleVia_error hf hr hts h
+
+/-- hence **an answerable query is never turned into an error** by a similarity function that does
+not itself fail (`AcceptAll` and the cosine variants on routes of known edges): whenever the
+underlying search answers the query, so does single-via, on every accepted replay -/
+theorem single_via_answers_answerable {c : Config α} {g : List α} (hf : c.fwd.AdjConsistent)
+    (hr : (c.rev g).AdjConsistent) {sim : List Nat → List Nat → Except ErrKind Bool}
+    (hsim : ∀ a b, ∃ x, sim a b = .ok x)
+    {term : KspTerm} {source target k : Nat} (hts : target ≠ source) {fs rs pops : List Nat}
+    {fres : SearchResult α}
+    (hfwd : runVertexOriented c.fwd.inst source (some target) fs = .ok fres) :
+    (∃ r, singleVia c g sim term source target k fs rs pops = .ok r) ∨
+    singleVia c g sim term source target k fs rs pops = .error .scheduleExhausted ∨
+    singleVia c g sim term source target k fs rs pops = .error .badSchedule := by
+  cases hres : singleVia c g sim term source target k fs rs pops with
+  | ok r => exact Or.inl ⟨r, rfl⟩
+  | error e =>
+    rcases single_via_failures hf hr hts hres with h | h | h | ⟨a, b, h⟩
+    · rw [hfwd] at h; cases h
+    · exact Or.inr (Or.inl (by rw [h]))
+    · exact Or.inr (Or.inr (by rw [h]))
+    · obtain ⟨x, hx⟩ := hsim a b
+      rw [hx] at h; cases h
 
 /-! ### Non-vacuity (single-via): the diamond `0 → {1, 2} → 3`, Dijkstra, k = 2.  The hypotheses hold,
 the run succeeds with two routes, and the theorems above apply to it.  (Also the witness of the
@@ -355,59 +487,59 @@ example : ∃ rA rT, singleVia Example.diamond (List.replicate 4 0) simAcceptAll
   exact ⟨rA, rT, hA, hT, accept_all_at_least_as_many hA hT, (single_via_count hA).1,
     (single_via_count hT).2 (by decide)⟩
 
-/-! ## Defects of single-via found on the way (each reproduced on the real code by the harness) -/
+/-- the alternative of that run is permitted link by link (`single_via_routes_permitted` applies) -/
+example : ∃ r, singleVia Example.diamond (List.replicate 4 0) simAcceptAll .exact 0 3 2
+      [0, 1, 3] [3, 1, 0] [1, 2] = .ok r ∧ r.routes.tail ≠ [] ∧
+    ∀ route ∈ r.routes.tail, ∀ i (hi : i + 1 < route.length),
+      Example.diamond.fwd.inst.valid route[i + 1].edge route[i].state (some route[i].edge) =
+        .ok true := by
+  obtain ⟨r, hr, hids⟩ := Example.ok_of_idsOf Example.diamond_accept_all
+  refine ⟨r, hr, ?_, ?_⟩
+  · intro h
+    have := congrArg List.length hids
+    cases hrr : r.routes with
+    | nil => rw [hrr] at this; simp at this
+    | cons a rest => rw [hrr] at h this; simp at h; subst h; simp at this
+  · intro route hroute
+    exact (single_via_routes_permitted Example.diamond_adj.1
+      (rev_adj_irrel _ _ _ Example.diamond_adj.2) (by decide) hr route hroute).2.1
 
-/-- what IS true about restrictions: every element of the first route, and of the forward half of
-every alternative, is an entry of the forward tree, hence (C04, `SearchRoute.runAStar_validInv`) was
-accepted by the frontier model against the state and previous edge its parent carried.  Nothing of
-the kind holds for the re-traversed reverse half or for the junction turn: -/
-theorem single_via_forward_entries_valid_partial {c : Config α} {g : List α}
-    (hf : c.fwd.AdjConsistent) (hr : (c.rev g).AdjConsistent)
-    {sim : List Nat → List Nat → Except ErrKind Bool} {term : KspTerm} {source target k : Nat}
-    (hts : target ≠ source) {fs rs pops : List Nat} {r : AlgResult α}
-    (h : singleVia c g sim term source target k fs rs pops = .ok r) :
-    ∀ route ∈ r.routes.tail, ∃ fwdRoute revRoute, route = fwdRoute ++ revRoute ∧
-      ∀ b ∈ fwdRoute, SearchRoute.EntryOK c.fwd.inst b := by
-  obtain ⟨fres, h1, hall⟩ := single_via_alternative_state hf hr hts h
-  have hv := SearchRoute.runAStar_validInv _ _ _ _ _ (SearchRoute.runVertexOriented_some h1).1
-  intro route hroute
-  obtain ⟨v, fr, rr, e1, _, _, _, hent, _⟩ := hall route hroute
-  refine ⟨fr, rr, e1, ?_⟩
-  intro b hb
-  obtain ⟨u, hu⟩ := hent b hb
-  exact hv u b hu
+/-! ## The three single-via defects found on the way — REPAIRED in /repo (aa21347, e5eb18e, bfda969).
+Their witnesses, on which the counterexample theorems used to be proved, now satisfy the property;
+the harness keeps them in its corpus under the same oracle keys. -/
 
-/-- FULL STATEMENT (false of the code): "no returned route takes a turn listed by the
-turn-restriction model".  Witness: `0 -e0→ 1 -e1→ 4`, `0 -e2→ 2 -e3→ 3 -e4→ 4` with the turn
-(e3, e4) restricted.  Single-via (Dijkstra, AcceptAll, k = 2) returns the alternative
-`[e2, e3, e4]`: the reverse search from 4 submitted the pair to the model as (e4, e3) — later edge
-first — and the re-traversal never asks the frontier model.  The plain search refuses that turn:
-on the same network without the short branch it reports "no path". -/
-theorem single_via_restricted_turn_counterexample :
+/-- `ksp/single-via-restricted-turn` (repaired): `0 -e0→ 1 -e1→ 4`, `0 -e2→ 2 -e3→ 3 -e4→ 4` with
+the turn (e3, e4) restricted, Dijkstra, AcceptAll, k = 2.  The alternative `[e2, e3, e4]` — offered
+by both via vertices 2 and 3 — is turned down by the frontier validation in travel order; the
+shortest route is returned alone, and no returned route contains the restricted turn.  (The plain
+search refuses that turn too: on the network without the short branch it reports "no path".) -/
+theorem single_via_restricted_turn_witness :
     ∃ (c : Config ℚ) (r : AlgResult ℚ),
       c.fwd.AdjConsistent ∧ (c.rev []).AdjConsistent ∧
       c.frontier = [.turnRestriction [(3, 4)]] ∧
-      singleVia c (List.replicate 5 0) simAcceptAll .exact 0 4 2 [0, 1, 2, 4] [4, 1, 3, 0] [1, 2] = .ok r ∧
-      (∃ route ∈ r.routes, [3, 4] <:+: route.map (·.edge)) ∧
+      singleVia c (List.replicate 5 0) simAcceptAll .exact 0 4 2 [0, 1, 2, 4] [4, 1, 3, 0] [1, 2, 3] = .ok r ∧
+      r.routes.map (·.map (·.edge)) = [[0, 1]] ∧
+      (∀ route ∈ r.routes, ¬ [3, 4] <:+: route.map (·.edge)) ∧
       Example.idsOf (Example.restrictedTurnOnly.runVertex 0 (some 4) [0, 2, 3]) = .error .noPath := by
   obtain ⟨r, hr, hids⟩ := Example.ok_of_idsOf Example.restrictedTurn_singleVia
   refine ⟨Example.restrictedTurn, r, Example.restrictedTurn_adj.1, Example.restrictedTurn_adj.2, rfl,
-    hr, ?_, Example.restrictedTurn_plain⟩
-  have hmem : [2, 3, 4] ∈ r.routes.map (·.map (·.edge)) := by rw [hids]; simp
-  obtain ⟨route, hroute, hre⟩ := List.mem_map.1 hmem
-  exact ⟨route, hroute, by rw [hre]; exact ⟨[2], [], rfl⟩⟩
+    hr, hids, ?_, Example.restrictedTurn_plain⟩
+  intro route hroute
+  have hmem : route.map (·.edge) ∈ r.routes.map (·.map (·.edge)) := List.mem_map.2 ⟨route, hroute, rfl⟩
+  rw [hids] at hmem
+  simp only [List.mem_singleton] at hmem
+  rw [hmem]
+  decide
 
-/-- FULL STATEMENT (false of the code): "a query the underlying search answers is not turned into
-an error".  `single_via_failures` is the partial result: besides the first search only the reverse
-search, the re-traversal and the similarity function can fail — and the reverse search does, with
-"no path", on `0 -e0→ 1 -e1→ 2` when the (untakeable) pair (e1, e0) is listed as a restricted turn:
-searching backwards it meets e0 with "previous" edge e1.  (The same propagation turns a limit of
-the termination model hit only by the reverse search into a failed query.) -/
-theorem single_via_reverse_failure_counterexample :
+/-- `ksp/single-via-reverse-search-failed` (repaired): on `0 -e0→ 1 -e1→ 2` with the (untakeable)
+pair (e1, e0) listed as a restricted turn the reverse search still fails with "no path" — searching
+backwards it meets e0 with "previous" edge e1 — and single-via now answers with the shortest route
+alone, like the underlying search -/
+theorem single_via_reverse_failure_witness :
     ∃ (c : Config ℚ), c.fwd.AdjConsistent ∧ (c.rev []).AdjConsistent ∧
       Example.idsOf (c.fwd.runVertex 0 (some 2) [0, 1, 2]) = .ok [[0, 1]] ∧
       Example.idsOf (singleVia c (List.replicate 3 0) simAcceptAll .exact 0 2 2 [0, 1, 2] [2, 1] []) =
-        .error .noPath := by
+        .ok [[0, 1]] := by
   refine ⟨Example.reversedPair, ?_, ?_, Example.reversedPair_plain, Example.reversedPair_singleVia⟩
   · apply Example.adj_of_lists
     · decide +kernel
@@ -416,14 +548,13 @@ theorem single_via_reverse_failure_counterexample :
     · decide +kernel
     · decide
 
-/-- the third source of failure named by `single_via_failures` occurs too: an alternative whose
-junction turn has no entry in the turn-delay table (no search ever evaluated that turn: the via
-vertex was labelled but not expanded) makes `reorient_reverse_route` fail, and with it the query
-the underlying search answers -/
-theorem single_via_retraversal_failure_counterexample :
+/-- `ksp/single-via-alternative-failed` (repaired): the alternative whose junction turn has no entry
+in the turn-delay table (no search ever evaluated that turn: the via vertex was labelled but not
+expanded) is dropped; the query is answered with the shortest route -/
+theorem single_via_retraversal_failure_witness :
     Example.idsOf (Example.missingDelay.fwd.runVertex 0 (some 3) [0, 1, 3]) = .ok [[0, 1]] ∧
     Example.idsOf (singleVia Example.missingDelay (List.replicate 4 0) simAcceptAll .exact 0 3 2
-      [0, 1, 3] [3, 1, 0] [1, 2]) = .error .access :=
+      [0, 1, 3] [3, 1, 0] [1, 2]) = .ok [[0, 1]] :=
   Example.missingDelay_runs
 
 /-! ## PART B — Yen's algorithm (`yens_algorithm::run`)
